@@ -201,7 +201,7 @@ int main(void) {
             for (w = 0; w < 5; w++) if (decodes_with(FD[k], FDsize[k], srcB, 300, 0, w) != (w == k || k == 0)) die("fixture frame FD does not need exactly its own dictionary"); } }
     fresh();
     while (fgets(line, sizeof(line), stdin)) {
-        char op[32]; long long v[12]; unsigned long long u[12]; long long a = 0, b = 0, c3 = 0; size_t n; int oplen = 0;
+        char op[32]; long long v[14]; unsigned long long u[14]; long long a = 0, b = 0, c3 = 0; size_t n; int oplen = 0;
         if (!strncmp(line, "cids", 4) || !strncmp(line, "dids", 4)) {
             int* ids = line[0] == 'c' ? cids : dids; int cnt = 0; char* p = line + 4;
             for (;;) { char* e; long vv = strtol(p, &e, 10); if (e == p) break; if (cnt < MAXIDS) ids[cnt++] = (int)vv; p = e; }
@@ -210,7 +210,7 @@ int main(void) {
         }
         if (sscanf(line, "%31s%n", op, &oplen) < 1) continue;
         memset(v, 0, sizeof(v)); memset(u, 0, sizeof(u));
-        n = parse_nums(line + oplen, v, u, 12); (void)n;
+        n = parse_nums(line + oplen, v, u, 14); (void)n;
         a = v[0]; b = v[1]; c3 = v[2];
         if (!strcmp(op, "new")) { fresh(); printf("ok\n"); }
         else if (!strcmp(op, "nop")) printf("ok\n");
@@ -281,8 +281,11 @@ int main(void) {
             else if (!strcmp(op, "cbad")) { ZSTD_inBuffer in = { srcA, 10, 0 }; ZSTD_outBuffer out = { outb, 10, 11 };
                 size_t const r = ZSTD_compressStream2(c, &out, &in, ZSTD_e_continue); printf("%s\n", ZSTD_isError(r) ? "err" : "ok"); }
             else if (!strcmp(op, "csimple")) {
-                if (cmid(c)) printf("skip\n");
+                /* round 3: since fix 38ec6ea a single-call compression closes a streaming session left open; not tried while the
+                   jobs of a multithreaded frame are in flight */
+                if (cmid(c) && c->appliedParams.nbWorkers > 0) printf("skip\n");
                 else { size_t const r = ZSTD_compressCCtx(c, outb, outCap, srcB, 300, 1);
+                    soutPos[o] = 0; broken[o] = 0; fedBytes[o] = 0;
                     if (ZSTD_isError(r)) printf("err %s\n", ZSTD_getErrorName(r)); else { print_hdr("ok", outb, r); remember(o, outb, r, 1, 300); } } }
             else if (!strcmp(op, "cload")) printf("%s\n", cls(ZSTD_CCtx_loadDictionary(c, b ? DICT[1 + (b == 2)] : NULL, b ? DICTSZ[1 + (b == 2)] : 0)));
             else if (!strcmp(op, "crefcdict")) printf("%s\n", cls(ZSTD_CCtx_refCDict(c, b ? CDICT[1 + (b == 2)] : NULL)));
@@ -318,6 +321,23 @@ int main(void) {
                     else { for (w = 0; w < 5; w++) if (decodes_with(f, fn, want, wantLen, magicless, w)) mask |= 1 << w;
                         if (h.frameContentSize == ZSTD_CONTENTSIZE_UNKNOWN) printf("ok -1 %d %d\n", dictidx(h.dictID), mask);
                         else printf("ok %llu %d %d\n", (unsigned long long)h.frameContentSize, dictidx(h.dictID), mask); } } }
+            /* ---- round 3: the deprecated stream initialisers ---- */
+            else if (!strncmp(op, "cinit", 5) || !strcmp(op, "cresetcs")) {
+                size_t r; const int kk = (int)b; const void* const dk = (kk == 1 || kk == 2) ? DICT[kk] : NULL; size_t const dks = (kk == 1 || kk == 2) ? DICTSZ[kk] : 0;
+                if (!strcmp(op, "cinit")) r = ZSTD_initCStream(c, (int)b);
+                else if (!strcmp(op, "cinitsrc")) r = ZSTD_initCStream_srcSize(c, (int)b, u[2]);
+                else if (!strcmp(op, "cinitdict")) r = ZSTD_initCStream_usingDict(c, dk, dks, (int)c3);
+                else if (!strcmp(op, "cinitcdict")) r = ZSTD_initCStream_usingCDict(c, (kk == 1 || kk == 2) ? CDICT[kk] : NULL);
+                else if (!strcmp(op, "cinitcdictadv")) { ZSTD_frameParameters fp; fp.contentSizeFlag = (int)v[2]; fp.checksumFlag = (int)v[3]; fp.noDictIDFlag = (int)v[4];
+                    r = ZSTD_initCStream_usingCDict_advanced(c, (kk == 1 || kk == 2) ? CDICT[kk] : NULL, fp, u[5]); }
+                else if (!strcmp(op, "cinitadv")) { ZSTD_parameters pp; pp.cParams.windowLog = (unsigned)v[2]; pp.cParams.chainLog = (unsigned)v[3]; pp.cParams.hashLog = (unsigned)v[4];
+                    pp.cParams.searchLog = (unsigned)v[5]; pp.cParams.minMatch = (unsigned)v[6]; pp.cParams.targetLength = (unsigned)v[7]; pp.cParams.strategy = (ZSTD_strategy)v[8];
+                    pp.fParams.contentSizeFlag = (int)v[9]; pp.fParams.checksumFlag = (int)v[10]; pp.fParams.noDictIDFlag = (int)v[11];
+                    r = ZSTD_initCStream_advanced(c, dk, dks, pp, u[12]); }
+                else if (!strcmp(op, "cresetcs")) r = ZSTD_resetCStream(c, u[1]);
+                else { die("unknown init op"); r = 0; }
+                if (!cmid(c)) { broken[o] = 0; fedBytes[o] = 0; soutPos[o] = 0; }
+                printf("%s\n", cls(r)); }
             else die("unknown c op");
         }
         else if (op[0] == 'p') {
@@ -397,6 +417,14 @@ int main(void) {
                 if (c16_d_stage(d)) printf("skip\n");
                 else { int const k = (int)(((c3 % 5) + 5) % 5);
                     size_t const r = ZSTD_decompress_usingDDict(d, outb, outCap, FD[k], FDsize[k], b ? DDICT[1 + (b == 2)] : NULL);
+                    if (!ZSTD_isError(r) && r == 300 && !memcmp(outb, srcB, 300)) printf("ok\n");
+                    else printf("err %s\n", ZSTD_isError(r) ? ZSTD_getErrorName(r) : "wrong content");
+                    ZSTD_DCtx_reset(d, ZSTD_reset_session_only); dbegan[o] = 0; } }
+            /* ---- round 3 ---- */
+            else if (!strcmp(op, "ddecr")) {   /* ZSTD_decompress_usingDict(dctx, the bytes of dictionary b (0 = NULL), fixture frame c3) */
+                if (c16_d_stage(d)) printf("skip\n");
+                else { int const k = (int)(((c3 % 5) + 5) % 5); int const w = b ? 1 + (b == 2) : 0;
+                    size_t const r = ZSTD_decompress_usingDict(d, outb, outCap, FD[k], FDsize[k], w ? DICT[w] : NULL, w ? DICTSZ[w] : 0);
                     if (!ZSTD_isError(r) && r == 300 && !memcmp(outb, srcB, 300)) printf("ok\n");
                     else printf("err %s\n", ZSTD_isError(r) ? ZSTD_getErrorName(r) : "wrong content");
                     ZSTD_DCtx_reset(d, ZSTD_reset_session_only); dbegan[o] = 0; } }
